@@ -783,7 +783,8 @@ class Engine:
             return
         path, resolved, fj = c
         target = resolved or path
-        st.events.append(("call", target, tuple(args), site, target in self.fx.fns, fj))
+        muts = tuple(self.arg_is_mut(fj, t, i) for i in range(len(args)))
+        st.events.append(("call", target, tuple(args), site, target in self.fx.fns, fj, muts))
         # 1. exact summaries for the resolved target
         for name in (target, strip_generics(target)):
             if name in self.summaries:
@@ -1242,7 +1243,13 @@ def s_nonzero_get2(eng, frame, st, args, fj, depth, site):
     yield st, args[0]
 
 
+def s_bool_not(eng, frame, st, args, fj, depth, site):
+    yield st, neg(_val(eng, st, args[0]))
+
+
 DEFAULT_SUMMARIES = {
+    "anyhow::__private::not": s_bool_not,
+    "std::ops::Not::not": s_bool_not,
     "std::num::NonZero::new": s_nonzero_new,
     "std::num::NonZero::get": s_nonzero_get2,
     "std::intrinsics::discriminant_value": s_discriminant_value,
